@@ -27,9 +27,10 @@ CONSTANTS
 def alloc_model(ck, quick):
     """the allocation-granular specification: design checks, must-refute deviations, and exact conformance"""
     # 1. TLC on Alloc: every reachable (tree, capacities) state under up to MaxFaults failed calls, every fault index
-    for (nk, lf, it, is_set, ma, mf) in ([(5, 2, 2, False, 16, 1), (4, 2, 2, True, 2, 2), (4, 3, 2, False, 2, 2)] if quick else
-                                         [(5, 2, 2, False, 16, 2), (5, 2, 2, True, 2, 2), (5, 3, 2, False, 2, 2), (5, 2, 3, False, 16, 2), (6, 2, 2, False, 16, 1), (6, 2, 2, True, 2, 1)]):
-        r = tlc.run('Alloc', acfg(nk, lf, it, is_set, minalloc=ma, maxfaults=mf), timeout=3400)
+    LIGHT = ('CapOK', 'AbsOK', 'SoundF', 'OverfullOnlyAfterFault', 'FaultSeen', 'ErrIsMemoryError')
+    for (nk, lf, it, is_set, ma, mf, invs) in ([(4, 2, 2, False, 16, 2, AINV), (4, 2, 2, True, 2, 2, AINV), (4, 3, 2, False, 2, 2, AINV), (5, 2, 2, False, 16, 1, LIGHT)] if quick else
+                                               [(5, 2, 2, False, 16, 2, AINV), (5, 2, 2, True, 2, 2, AINV), (5, 3, 2, False, 2, 2, AINV), (5, 2, 3, False, 16, 2, AINV), (6, 2, 2, False, 16, 1, LIGHT), (6, 2, 2, True, 2, 1, LIGHT)]):
+        r = tlc.run('Alloc', acfg(nk, lf, it, is_set, minalloc=ma, maxfaults=mf, invs=invs), timeout=3400)
         name = 'Alloc keys=%d sizes=(%d,%d) %s MIN_BUCKET_ALLOC=%d failed calls<=%d' % (nk, lf, it, 'set' if is_set else 'map', ma, mf)
         ck.add_tlc(r.summary(), name)
         common.tlc_verdict(ck, r, name)
@@ -51,11 +52,11 @@ def alloc_model(ck, quick):
         # every faulting transition, and a sample of the others (their paths are verified step by step as well)
         faulting = [i for i in idx if payloads[i]['err']]
         rest = [i for i in idx if not payloads[i]['err']]
-        budget = 1500 if quick else len(idx)
+        budget = 800 if quick else len(idx)
         sel = faulting[:budget] + rest[:max(200, budget - len(faulting))]
         plan[(fn, lf, it, is_set)] = ('dump', sel)
     # 4. spec -> code, deep: behaviours of the simulator (16 keys, several failed calls in a row)
-    for (nk, lf, it, is_set, num, depth) in ([(12, 2, 2, False, 300, 50), (12, 2, 2, True, 300, 50), (16, 3, 2, False, 200, 60)] if quick else
+    for (nk, lf, it, is_set, num, depth) in ([(12, 2, 2, False, 160, 50), (16, 3, 2, True, 120, 60)] if quick else
                                              [(12, 2, 2, False, 3000, 60), (12, 2, 2, True, 3000, 60), (16, 3, 2, False, 2000, 70), (16, 2, 3, True, 2000, 70), (16, 4, 3, False, 2000, 90)]):
         c = acfg(nk, lf, it, is_set, maxf=12, maxfaults=99, spec='SSpec', invs=('CapOK', 'AbsOK', 'SoundF'), view=False).replace('ACTION_CONSTRAINT NoIdleF\n', '')
         fn, behs, summ = tlc.simulate_behaviours('AllocSim', c, num, depth, seed=ck.seed + 5)
@@ -65,7 +66,7 @@ def alloc_model(ck, quick):
         jobsl = []
         fams = (['II', 'OO', 'LF', 'fs'] if quick else ['II', 'OO', 'LF', 'fs', 'OI', 'IO', 'QQ', 'UF', 'LL'])
         if flavour == 'asan':
-            fams = fams[:2] if quick else fams[:4]
+            fams = fams[1:2] if quick else fams[:4]
         for (fn, lf, it, is_set), (mode, what) in plan.items():
             for fam in fams:
                 if fam == 'fs' and is_set:
@@ -122,7 +123,7 @@ def main():
         for (fn, grow, split, nk, lf, it) in dumps:
             ck.rng.shuffle(grow)
             ck.rng.shuffle(split)
-            b = (700 if flavour == 'plain' else 250) if quick else (len(grow) if flavour == 'plain' else len(grow) // 3)
+            b = (400 if flavour == 'plain' else 120) if quick else (len(grow) if flavour == 'plain' else len(grow) // 3)
             sel = sorted(set(split[:b // 2] + grow[:b // 2]))
             fams = (['II', 'OO', 'LF', 'fs'] if quick else ['II', 'OO', 'LF', 'fs', 'OI', 'IO', 'QQ', 'UF', 'LL'])
             parts = 2
